@@ -1907,15 +1907,16 @@ class PyCdlib:
 
         return num_bytes_to_remove
 
-    def _find_or_create_rr_moved(self):
-        # type: () -> int
+    def _find_or_create_rr_moved(self, check_only=False):
+        # type: (bool) -> int
         """
         An internal method to find the /RR_MOVED directory on the ISO.  If it
         already exists, the directory record to it is returned.  If it doesn't
         yet exist, it is created and the directory record to it is returned.
 
         Parameters:
-         None.
+         check_only - Only check that the directory exists or can be created
+                      (raises if its name is taken); do not create it.
         Returns:
          The number of additional bytes needed for the rr_moved directory (this
          may be zero).
@@ -1933,6 +1934,10 @@ class PyCdlib:
         for child in self.pvd.root_directory_record().children:
             if child.file_ident == rr_moved_name or (child.rock_ridge is not None and child.rock_ridge.name() == rr_moved_rr_name):
                 raise pycdlibexception.PyCdlibInvalidInput('The name of the Rock Ridge relocation directory is already in use')
+
+        if check_only:
+            # The caller only wanted to know whether it can be created.
+            return 0
 
         # (Only now are the default names settled; set_relocated_name() may be
         # used for as long as they are not.)
@@ -5291,7 +5296,10 @@ class PyCdlib:
                 # If the depth was a multiple of 8, then we are going to have to
                 # make a relocated entry for this record.
 
-                num_bytes_to_add += self._find_or_create_rr_moved()
+                # (Both steps that can refuse the call - the name of the
+                # relocation directory is taken, the Rock Ridge name is too
+                # long - come before anything is changed.)
+                self._find_or_create_rr_moved(True)
 
                 # With a depth of 8, we have to add the directory both to the
                 # original parent with a CL link, and to the new parent with an
@@ -5303,6 +5311,7 @@ class PyCdlib:
                                      self.rock_ridge, new_rr_name,
                                      self.logical_block_size, True, False,
                                      self.xa, file_mode, time.time())
+                num_bytes_to_add += self._find_or_create_rr_moved()
                 num_bytes_to_add += self._add_child_to_dr(fake_dir_rec)
                 num_bytes_to_add += self._update_rr_ce_entry(fake_dir_rec)
 
